@@ -180,7 +180,7 @@ def c05_malformed(ctx, p):
         ctx.check(r is False, f'`to` with another byte at separator position {pos} makes the element ready', 'malformed-to-ready')
     else:
         ctx.cover('malformed-offset')
-        r = ctx.impl.is_removal(list(b'2001-01-01 00:00:00'), list(p['offset'].encode()), now)
+        r = ctx.impl.is_removal(list(p.get('to', '2001-01-01 00:00:00').encode()), list(p['offset'].encode()), now)
         ctx.check(r is False, f"unparseable offset {p['offset']!r} makes the element ready", 'malformed-offset-ready')
 
 
@@ -219,6 +219,11 @@ def c01_to_value_jobs(tier):
     for L in cuts:
         for k, suffix in ((3, ''), (3, 'zz')) if tier == 'quick' else ((1, ''), (2, ''), (3, ''), (4, ''), (3, 'zz'), (4, '9')):
             jobs.append(dict(harness='c01_to_value', label=f'to = {full[:L]!r} + U({k}) + {suffix!r}', params=dict(prefix=full[:L], k=k, suffix=suffix)))
+    # unusable offsets under process time zones with daylight saving: civil times in the gap / in the repeated hour
+    for tz, to in (('Europe/Berlin', '2024-03-31 02:30:00'), ('Europe/Berlin', '2024-10-27 02:30:00'), ('America/New_York', '2024-03-10 02:30:00'),
+                   ('CET-1CEST,M3.5.0,M10.5.0/3', '2024-03-31 02:30:00')):
+        for o in ('', 'local'):
+            jobs.append(dict(harness='c01_to_value', label=f'to = {to!r}, offset {o!r}, TZ={tz}', params=dict(prefix=to, k=0, suffix='', offset=o, tz=tz)))
     return jobs
 
 
@@ -265,6 +270,11 @@ def c05_jobs(tier, seed):
         J('c05_malformed', f'malformed to: symbolic byte at separator {pos}', kind='sep', pos=pos)
     for o in BAD_OFFSETS:
         J('c05_malformed', f'malformed offset {o!r}', kind='offset', offset=o)
+    # an unusable offset never falls back to the zone of the process: civil times that do not exist / exist twice in a DST zone
+    for tz, to in (('Europe/Berlin', '2024-03-31 02:30:00'), ('Europe/Berlin', '2024-10-27 02:30:00'), ('America/New_York', '2024-03-10 02:30:00'),
+                   ('CET-1CEST,M3.5.0,M10.5.0/3', '2024-03-31 02:30:00'), ('Asia/Tokyo', '2001-01-01 00:00:00')):
+        for o in ('', ' ', 'local'):
+            J('c05_malformed', f'malformed offset {o!r}, to={to} under TZ={tz}', kind='offset', offset=o, to=to, tz=tz)
     # pipeline probes at the boundary second, incl. negative offsets (deadline later in UTC) and both spellings
     def inst(s, off):
         t = datetime.datetime.strptime(s, '%Y-%m-%d %H:%M:%S').replace(tzinfo=datetime.timezone.utc)
